@@ -161,7 +161,7 @@ impl ZooCfg {
             cksum_kind: if rng.chance(7, 8) { 0 } else { rng.range(1, 3) as u8 },
             raw4: *rng.pick(&[253u8, 253, 17, 6, 1, 2]),
             raw6: *rng.pick(&[253u8, 253, 17, 6, 58, 0]),
-            join_groups: med != Med::Lowpan,
+            join_groups: med != Med::Lowpan || rng.chance(2, 3),
             lowpan_contexts: rng.bool(),
             est_v6: rng.bool(),
             dns_v6: rng.bool(),
